@@ -38,6 +38,7 @@ def execOp (g : Unit → List CPt × List CPt) (op : String) (args : List String
   | "new" => opNew args
   | "prove" => opProve args
   | "mprove" => opMprove args
+  | "forge" => opForge args
   | "decode" => opDecode args
   | "extract" => opExtract args
   | "fromstr" => opFromStr args
